@@ -794,7 +794,12 @@ func (w *W) opMerge() string {
 	embed := ""
 	switch srcKind {
 	case 0:
-		srcTree = w.G.Container()
+		if !dst.M.Empty() && !hasMixed(dst.M) && t.Chance(1, 3, "source-is-a-variant-of-the-destination") {
+			srcTree = w.G.Variant(dst.M)
+			w.R.Probe("merge: source of the same shape as the destination")
+		} else {
+			srcTree = w.G.Container()
+		}
 		rep := t.Choose(RepCount, "rep")
 		FitRep(srcTree, rep)
 		srcVal = Render(srcTree, rep, w.Opts)
@@ -896,16 +901,23 @@ func (w *W) opMerge() string {
 		used := map[string]bool{}
 		inExplicit := map[string]bool{} // names occurring in explicit option paths
 		wildNames := map[string]bool{}
-		for i := 0; i < n && len(cands) > 0; i++ {
+		// (an option for one index of a list is often accompanied by one for the list itself, naming
+		// the index-wise merge the index option presupposes)
+		var forced [][]string
+		for i := 0; (i < n || len(forced) > 0) && len(cands) > 0; i++ {
 			var p []string
-			if t.Chance(1, 5, "field-opt-absent") {
+			isForced := false
+			if len(forced) > 0 {
+				p, forced = forced[0], forced[1:]
+				isForced = true
+			} else if t.Chance(1, 5, "field-opt-absent") {
 				p = []string{Names[t.Choose(len(Names), "fo-name")], Names[t.Choose(len(Names), "fo-name2")]}
 			} else {
 				p = cands[t.Choose(len(cands), "field-opt-path")]
 			}
 			// "*" for every index of a list: one index segment of the path is generalised, unless
 			// another option already addresses an index (or every index) of the same list
-			if t.Chance(1, 4, "field-opt-star") {
+			if !isForced && t.Chance(1, 4, "field-opt-star") {
 				at := -1
 				for i, x := range p {
 					if _, err := strconv.Atoi(x); err == nil {
@@ -965,11 +977,22 @@ func (w *W) opMerge() string {
 				continue
 			}
 			h := []model.Handling{model.HMerge, model.HReplace, model.HAppend, model.HPrepend}[t.Choose(4, "field-opt-policy")]
+			if isForced {
+				h = model.HMerge
+				w.R.Probe("merge: option for one index of a list next to an index-wise merge option for the list")
+			} else if len(p) >= 2 && t.Chance(1, 3, "field-opt-also-for-the-list") {
+				for at := len(p) - 1; at >= 1; at-- {
+					if _, err := strconv.Atoi(p[at]); err == nil {
+						forced = append(forced, append([]string{}, p[:at]...))
+						break
+					}
+				}
+			}
 			fo := model.FieldOpt{Path: p, H: h}
 			name := key
 			// how an explicit path that runs through (or ends at) a node matched by a "**"
 			// wildcard combines with it is not defined by C16: such pairs are not generated
-			if t.Chance(1, 5, "field-opt-wild") {
+			if !isForced && t.Chance(1, 5, "field-opt-wild") {
 				if _, err := strconv.Atoi(last); err == nil || inExplicit[last] {
 					continue
 				}
@@ -1063,12 +1086,7 @@ func (w *W) opMerge() string {
 	}
 	// known finding O12: an option's path also matches every path that contains it as a subsequence
 	if len(mo.Fields) > 0 {
-		spurious := false
-		for _, fo := range mo.Fields {
-			if !fo.Wild && spuriousMatch(fo.Path, dst.M, srcTree) {
-				spurious = true
-			}
-		}
+		spurious := spuriousOptions(mo.Fields, dst.M, srcTree)
 		if spurious && w.R.Avoid["O12"] {
 			return ""
 		}
